@@ -11,11 +11,13 @@
                 PrefetchBloomFilters), or loaded by readBloomFilter on the first
                 call (SkipBloomFilters, encrypted columns); a load that fails
                 gives an errorBloomFilter whose Check returns that error;
-      multi_row_group.go  multiBloomFilter.Check:
-                for _, c := range f.chunks {
-                    if b := c.BloomFilter(); b != nil {
-                        if ok, err := b.Check(v); ok || err != nil { return ok, err }
-                    }
+      multi_row_group.go  multiColumnChunk.BloomFilter (since b389733 / 5a48a71): takes the
+                filter of every chunk ONCE (a lazily loaded filter is loaded by that
+                call); no filter when a chunk has none; a filter that failed to load is
+                returned as the filter of the whole concatenation; then
+                multiBloomFilter.Check:
+                for _, b := range f.filters {
+                    if ok, err := b.Check(v); ok || err != nil { return ok, err }
                 }
                 return false, nil
     Executable model + the two facts C14 needs; the proofs are three lines
@@ -51,10 +53,17 @@ Fixpoint multi_check_absorbing (parts : list answer) : answer :=
   | _ :: r => multi_check_absorbing r
   end.
 
-Record part := mkPart { p_needs_read : bool; p_faulted : bool; p_clean : bool }.
+(* [p_lazy]: the filter is loaded from the source by the call of BloomFilter()
+   (SkipBloomFilters, encrypted columns) rather than by OpenFile *)
+Record part := mkPart { p_needs_read : bool; p_faulted : bool; p_clean : bool; p_lazy : bool }.
 
+Definition load_fails (p : part) : bool := p_lazy p && p_faulted p.
+
+(* the filters are taken first (every lazily loaded one is loaded); one that
+   fails to load makes the lookup fail before any filter is consulted *)
 Definition lookup (ps : list part) : answer * nat :=
-  multi_check (map (fun p => part_check (p_needs_read p) (p_faulted p) (p_clean p)) ps).
+  if existsb load_fails ps then (Failed, 0)
+  else multi_check (map (fun p => part_check (p_needs_read p) (p_faulted p) (p_clean p)) ps).
 
 Lemma multi_absent : forall parts, fst (multi_check parts) = Absent -> Forall (fun a => a = Absent) parts.
 Proof.
@@ -67,7 +76,8 @@ Qed.
 Theorem stored_value_never_absent : forall ps,
   (exists p, In p ps /\ p_clean p = true) -> fst (lookup ps) <> Absent.
 Proof.
-  intros ps (p & Hin & Hc) H. unfold lookup in H. apply multi_absent in H.
+  intros ps (p & Hin & Hc) H. unfold lookup in H.
+  destruct (existsb load_fails ps); [discriminate|]. apply multi_absent in H.
   rewrite Forall_forall in H.
   specialize (H (part_check (p_needs_read p) (p_faulted p) (p_clean p))
                 (in_map (fun p => part_check (p_needs_read p) (p_faulted p) (p_clean p)) ps p Hin)).
@@ -78,14 +88,21 @@ Qed.
    every filter was consulted and none failed *)
 Theorem absent_means_no_failure : forall ps,
   fst (lookup ps) = Absent ->
-  snd (lookup ps) = length ps /\ forall p, In p ps -> p_needs_read p && p_faulted p = false.
+  snd (lookup ps) = length ps /\ forall p, In p ps -> p_needs_read p && p_faulted p = false /\ load_fails p = false.
 Proof.
-  intros ps H. split.
-  - unfold lookup in *. rewrite <- (map_length (fun p => part_check (p_needs_read p) (p_faulted p) (p_clean p)) ps).
+  intros ps H.
+  assert (Hl : existsb load_fails ps = false).
+  { unfold lookup in H. destruct (existsb load_fails ps); [discriminate|reflexivity]. }
+  split.
+  - unfold lookup in *. rewrite Hl in *. rewrite <- (map_length (fun p => part_check (p_needs_read p) (p_faulted p) (p_clean p)) ps).
     generalize dependent (map (fun p => part_check (p_needs_read p) (p_faulted p) (p_clean p)) ps).
     induction l as [|a r IH]; intros H; [reflexivity|].
     destruct a; cbn in H; try discriminate. cbn. destruct (multi_check r) as [x n]. cbn in *. f_equal. apply IH. exact H.
-  - intros p Hin. unfold lookup in H. apply multi_absent in H. rewrite Forall_forall in H.
-    specialize (H _ (in_map (fun p => part_check (p_needs_read p) (p_faulted p) (p_clean p)) ps p Hin)).
-    unfold part_check in H. destruct (p_needs_read p && p_faulted p); [discriminate|reflexivity].
+  - intros p Hin. split.
+    + unfold lookup in H. rewrite Hl in H. apply multi_absent in H. rewrite Forall_forall in H.
+      specialize (H _ (in_map (fun p => part_check (p_needs_read p) (p_faulted p) (p_clean p)) ps p Hin)).
+      unfold part_check in H. destruct (p_needs_read p && p_faulted p); [discriminate|reflexivity].
+    + destruct (load_fails p) eqn:E; [|reflexivity].
+      assert (existsb load_fails ps = true) by (apply existsb_exists; exists p; split; assumption).
+      congruence.
 Qed.
